@@ -16,7 +16,7 @@ NUMPY = ["hop_round1_numpy", "round2_text_numpy", "hop_in_domain_edd_false_numpy
 WHOLE = ["round1", "round2", "round2_same_text", "hop_round1", "hop_fixpoint", "hop_hop", "all_rounds", "all_rounds_ok", "emit_answers_noWrap", "all_rounds_noWrap",
          "C08_full_on_domain", "round2_text_differs", "announce_variant_needed", "hop_hop_false_outside", "backtick_type_needed", "outside_domain_still_fixpoint"]
 IFACE = "hop_hop_view all_rounds_view one_more_hop_view hop_closed_form hop_eq_hopIR norm_view hop_fields hop_keeps_inD02 closed_of_stable stable_of_closed chain_iface_stable all_rounds_view_stable docHyp_congr inD02_reads stable_of_laws chain_iface_laws envAll_stable closure_fails envBad_not_stable envBad_not_closed hop_self_IR rounds_self_IR hop_hop_IR argparse_hop_hop_IR argparse_hop_hop_IR_eq argparse_header_quotes_drift header_drift_class header_drift_function IRFix_proper".split()
-THEOREMS = ["C08Iface." + t for t in IFACE] + ["C08Whole." + t for t in WHOLE] + ["C08.fixpoint_all_rounds", "C08.setDefaultDoc_idempotent", "C08.extract_keeps_line_when_carried", "C08.baseOf_idempotent",
+THEOREMS = ["C02Rest.C08Rest_rounds", "C02Rest.C03Rest_docLayerStable"] + ["C08Iface." + t for t in IFACE] + ["C08Whole." + t for t in WHOLE] + ["C08.fixpoint_all_rounds", "C08.setDefaultDoc_idempotent", "C08.extract_keeps_line_when_carried", "C08.baseOf_idempotent",
             "C08.wrapOptional_idempotent", "C08.quote_idempotent", "C08.unquote_not_idempotent"] + ["C08Google." + t for t in GOOGLE] + ["C08Numpy." + t for t in NUMPY]
 TRIGGER_DOCS = ["number of items to keep", "whether to shuffle the data", "list of layer names", "the path to the file", "true if verbose",
                 "a string naming the thing", "integer count of epochs", "One of 'a' or 'b'", "dictionary of options", "the float value"]
